@@ -117,6 +117,38 @@ func init() {
 			return m.appendValues(p, types.Typ[types.Uint8], add)
 		},
 		"unicode/utf8.ValidString": func(m *Machine, a []Value, _ *frame) Value { return m.validUTF8(a[0].(StrV).b) },
+		"unicode/utf8.DecodeRuneInString": func(m *Machine, a []Value, _ *frame) Value {
+			b := a[0].(StrV).b
+			if len(b) == 0 {
+				return TupleV{m.st.Const(32, 0xFFFD), m.st.Const(64, 0)}
+			}
+			r, n := m.decodeRuneAt(b, 0)
+			return TupleV{r, m.st.Const(64, uint64(n))}
+		},
+		"unicode/utf8.DecodeRune": func(m *Machine, a []Value, _ *frame) Value {
+			var p SliceV
+			if a[0] != nil {
+				p = a[0].(SliceV)
+			}
+			if p.len == 0 {
+				return TupleV{m.st.Const(32, 0xFFFD), m.st.Const(64, 0)}
+			}
+			b := make([]*Term, p.len)
+			for i := range b {
+				b[i] = m.loadCell(p.arr.cells[p.off+i]).(*Term)
+			}
+			r, n := m.decodeRuneAt(b, 0)
+			return TupleV{r, m.st.Const(64, uint64(n))}
+		},
+		"unicode/utf8.RuneCountInString": func(m *Machine, a []Value, _ *frame) Value {
+			b := a[0].(StrV).b
+			n := 0
+			for i := 0; i < len(b); n++ {
+				_, sz := m.decodeRuneAt(b, i)
+				i += sz
+			}
+			return m.st.Const(64, uint64(n))
+		},
 		"unicode/utf8.RuneLen":     nil, // filled below (may decline)
 		// ---- errors / fmt / math
 		"errors.Is": func(m *Machine, a []Value, c *frame) Value { return m.errorsIs(a[0].(IfaceV), a[1].(IfaceV), c) },
